@@ -51,6 +51,7 @@ func runC13(p *core.Program, r *core.Report) {
 	r.Floor("R5", 3)
 	a10Report(p, r, "R5", "pkg/types")
 	c13R6(p, r)
+	c13R11(p, r)
 	c13R7(p, r)
 	c13R9(p, r)
 	c13R8(p, r)
